@@ -96,7 +96,11 @@ pub enum Mut {
     LineSwap { line: u32 },
     Indent { line: u32, add: bool },
     Tok { line: u32, tok: u32, repl: u32 },
+    /// a multi-byte character inserted at byte offset `at` of line `line` (only at character boundaries)
+    CharIns { line: u32, at: u32, ch: u8 },
 }
+
+const INS_CHARS: [&str; 3] = ["\u{e9}", "\u{20ac}", "\u{1f600}"];
 
 // ------------------------------------------------------------------------------------------------
 // unit list
@@ -550,8 +554,8 @@ fn realize(spec: &UnitSpec) -> SeedInput {
 // ------------------------------------------------------------------------------------------------
 // mutations
 
-const TOKENS: [&[u8]; 22] = [
-    b"", b"\t", b" ", b"\\", b"\\n", b"c", b"f", b"m", b"p", b"tiny", b"2", b"0", b"-1", b"65536", b"4294967296", b"[", b"(", b")V", b"L;", b"a/b$c", b"\xff\xfe", b"CLASS",
+const TOKENS: [&[u8]; 30] = [
+    b"", b"\t", b" ", b"\\", b"\\n", b"c", b"f", b"m", b"p", b"tiny", b"2", b"0", b"-1", b"65536", b"4294967296", b"[", b"(", b")V", b"L;", b"a/b$c", b"\xff\xfe", b"CLASS", "\u{e9}".as_bytes(), "\u{20ac}".as_bytes(), "1\u{e9}".as_bytes(), "0x\u{20ac}".as_bytes(), "0b1\u{e9}".as_bytes(), "\u{1f600}".as_bytes(), "12\u{1f600}".as_bytes(), "\u{feff}c".as_bytes(),
 ];
 
 fn field_values(s: &Span, seed: &SeedInput, cur: u64, thorough: bool) -> Vec<(u64, &'static str)> {
@@ -684,6 +688,19 @@ fn enumerate(seed: &SeedInput, tier: Tier, r: &mut Rng) -> Vec<Mut> {
             for t in 0..ntok as u32 {
                 for repl in 0..TOKENS.len() as u32 {
                     m.push(Mut::Tok { line: li, tok: t, repl });
+                }
+            }
+        }
+    }
+    // a multi-byte character at every character boundary of every line (byte-offset arithmetic on text is a classic)
+    if matches!(seed.kind, Kind::Tiny | Kind::TinyDiff | Kind::Enigma | Kind::Nests | Kind::Desc) && !big {
+        let ls = lines_of(&seed.bytes);
+        let cap = if thorough { 200 } else { 40 };
+        for (li, l) in ls.iter().enumerate().take(cap) {
+            let Ok(text) = std::str::from_utf8(l) else { continue };
+            for (at, _) in text.char_indices().take(if thorough { 400 } else { 120 }) {
+                for ch in 0..INS_CHARS.len() as u8 {
+                    m.push(Mut::CharIns { line: li as u32, at: at as u32, ch });
                 }
             }
         }
@@ -828,6 +845,21 @@ fn apply(seed: &SeedInput, mu: &Mut) -> Vec<u8> {
             }
             o
         }
+        Mut::CharIns { line, at, ch } => {
+            let ls = lines_of(b);
+            let mut o = vec![];
+            for (i, l) in ls.iter().enumerate() {
+                if i == *line as usize {
+                    let at = (*at as usize).min(l.len());
+                    o.extend_from_slice(&l[..at]);
+                    o.extend_from_slice(INS_CHARS[*ch as usize % INS_CHARS.len()].as_bytes());
+                    o.extend_from_slice(&l[at..]);
+                } else {
+                    o.extend_from_slice(l);
+                }
+            }
+            o
+        }
         Mut::Tok { line, tok, repl } => {
             let repl = TOKENS[*repl as usize % TOKENS.len()];
             if seed.kind == Kind::Desc {
@@ -886,6 +918,7 @@ fn mut_class(seed: &SeedInput, mu: &Mut) -> String {
         Mut::LineSwap { .. } => "line-swap".into(),
         Mut::Indent { .. } => "indent".into(),
         Mut::Tok { .. } => "token".into(),
+        Mut::CharIns { .. } => "char-insert".into(),
     }
 }
 
@@ -1711,7 +1744,7 @@ pub fn run(a: &Args16) -> i32 {
             "coverage": {
                 "evaluations": evals,
                 "distinct_nontrivial": distinct,
-                "rule": "one evaluation = one real parser call on one damaged input, in a sandboxed child. Seed inputs: hand-built self-referential / deeply nested class files, generated class files (refclass encoder with offset map), the javac corpus raw and re-encoded, generated Tiny v2 / tinydiff / Enigma / nests texts, descriptor strings. Per seed input, enumerated completely: truncation at every offset; every u8/u16/u32 field of the offset map set to each boundary value (0, 1, max, max-1, +-1, i16/i32 extremes, rest-of-file, 16 MiB, 256 MiB; constant-pool index fields also to own index, pool count, and every Dynamic/InvokeDynamic/MethodHandle/second-slot index; tag and opcode bytes to a tag set, all 256 values in the thorough tier); per text line: delete, duplicate, swap, indent +-1, each token replaced by each of 22 boundary tokens. Sampled: bit flips (every bit for inputs <= 160 bytes, thorough: <= 2 KiB), seeded multi-byte edits. distinct = number of distinct damaged inputs (by digest) that differ from their seed input, counted per seed input and summed over pairwise distinct seed inputs.",
+                "rule": "one evaluation = one real parser call on one damaged input, in a sandboxed child. Seed inputs: hand-built self-referential / deeply nested class files, generated class files (refclass encoder with offset map), the javac corpus raw and re-encoded, generated Tiny v2 / tinydiff / Enigma / nests texts, descriptor strings. Per seed input, enumerated completely: truncation at every offset; every u8/u16/u32 field of the offset map set to each boundary value (0, 1, max, max-1, +-1, i16/i32 extremes, rest-of-file, 16 MiB, 256 MiB; constant-pool index fields also to own index, pool count, and every Dynamic/InvokeDynamic/MethodHandle/second-slot index; tag and opcode bytes to a tag set, all 256 values in the thorough tier); per text line: delete, duplicate, swap, indent +-1, each token replaced by each of 30 boundary tokens, a 2-, 3- and 4-byte character inserted at every character boundary. Sampled: bit flips (every bit for inputs <= 160 bytes, thorough: <= 2 KiB), seeded multi-byte edits. distinct = number of distinct damaged inputs (by digest) that differ from their seed input, counted per seed input and summed over pairwise distinct seed inputs.",
                 "samples": samples,
                 "exhaustive": false,
                 "exhaustive_parts": "truncation, field boundary values and line/token edits are enumerated completely per seed input; the seed inputs themselves and the flips/edits are sampled",
